@@ -5,6 +5,7 @@ package router
 import (
 	"crypto/ed25519"
 	"net/netip"
+	"time"
 
 	"github.com/mycoria/crop"
 	"github.com/mycoria/mycoria/config"
@@ -104,6 +105,13 @@ func VfC07Ping() {
 	}
 	// the signature / MAC area holds arbitrary bytes
 	vf.Havoc(f.AuthData())
+	// the source's signed-frame history: newest accepted timestamp so far (zero for a new session)
+	var latest time.Time
+	if known && vf.Bool() {
+		latest = vf.TimeSec()
+		inst.st.VfPeerSession(src).VfSetSignLatest(latest)
+	}
+	frameTime := f.SequenceTime()
 
 	err = r.handlePing(vfW, f)
 
@@ -115,6 +123,10 @@ func VfC07Ping() {
 		} else {
 			vf.Assert(len(vf.Verifies) >= 1 && vf.Verifies[len(vf.Verifies)-1].OK, "handled-without-verified-signature")
 			v := vf.Verifies[len(vf.Verifies)-1]
+			// replay protection: strictly newer than everything accepted from this source; only hop pings
+			// (which legitimately arrive over several peers) may repeat the newest timestamp
+			hop := mt == frame.RouterHopPing || mt == frame.RouterHopPingDeprecated
+			vf.Assert(frameTime.After(latest) || (hop && frameTime.Equal(latest)), "replayed-or-delayed-ping-handled")
 			if known {
 				vf.Assert(v.KeyID == kPeerSign, "verified-under-other-key")
 				vf.Reach("handled-known")
@@ -134,13 +146,16 @@ func VfC07Ping() {
 			vf.Assert(len(v.Msg) == len(f.VfSignedRange()), "verified-range-length")
 		}
 	} else {
-		if !known {
-			// no verified identity => no session / stored record for that address
-			if len(m.VfDigests()) == 0 {
-				vf.Assert(inst.st.VfPeerSession(src) == nil, "session-without-address-check")
-			}
-		}
 		vf.Reach("not-handled")
+	}
+	if !known && (inst.st.VfHasRouter(src) || inst.st.VfPeerSession(src) != nil) {
+		// a stored record / session for a first-contact source exists only if its key material hashed to that address
+		vf.Assert(len(m.VfDigests()) == 1, "record-stored-without-address-check")
+		d := m.VfDigests()[0]
+		s16 := src.As16()
+		q := vf.Int()
+		vf.Assume(q >= 0 && q < 16)
+		vf.Assert(d[q] == s16[q], "record-stored-for-key-that-does-not-hash-to-source")
 	}
 }
 
@@ -226,6 +241,63 @@ func VfC07Disconnect() {
 	}
 	if len(other.Sent)+len(other.Prio) > 0 {
 		vf.Reach("forwarded")
+	}
+	vf.Reach("done")
+}
+
+
+// ---- error pings ----
+
+func vfCborError(data []byte, v any) error {
+	if vf.Bool() {
+		return errVfCbor7
+	}
+	switch dst := v.(type) {
+	case *unreachableMsg:
+		dst.Unreachable = vfMycoAddr()
+	case *accessDeniedMsg:
+		dst.DstIP = vfMycoAddr()
+		dst.Protocol = vf.U8()
+		dst.DstPort = vf.U16()
+	}
+	return nil
+}
+
+// VfC07Error: a (verified) error ping from X with any code and any decoded
+// body clears only X's encryption session (code 2) and never that of another
+// router; connection-cache entries can only be moved to a non-allowed status.
+func VfC07Error() {
+	own, src, other := vfMycoAddr(), vfMycoAddr(), vfMycoAddr()
+	vf.Assume(own != src && own != other && src != other)
+	id := &m.Address{PublicAddress: m.PublicAddress{IP: own}}
+	cfg := &config.Config{}
+	inst := &vfRInst{id: id, cfg: cfg, builder: frame.NewFrameBuilder()}
+	inst.st = state.VfNewState(&state.VfInstance{Id: id, Cfg: cfg}, &m.PublicAddress{IP: src}, &m.PublicAddress{IP: other})
+	inst.st.VfPeerSession(src).SetEncryptionSession(state.VfEncSession(vf.NewAEAD(1), vf.NewAEAD(2)))
+	encOther := state.VfEncSession(vf.NewAEAD(3), vf.NewAEAD(4))
+	inst.st.VfPeerSession(other).SetEncryptionSession(encOther)
+	r := &Router{instance: inst, connStates: make(map[connStateKey]*connStateEntry)}
+	ck := connStateKey{localIP: own, remoteIP: vfMycoAddr(), protocol: vf.U8(), localPort: vf.U16(), remotePort: vf.U16()}
+	st0 := connStatus(vf.Choose(6))
+	ce := &connStateEntry{notify: make(chan connStatus)}
+	ce.status.Store(uint32(st0))
+	r.connStates[ck] = ce
+	h := NewErrorPingHandler(r)
+	f, err := inst.builder.NewFrameV1(src, own, frame.RouterPing, nil, []byte("12345678"), nil)
+	if err != nil {
+		vf.Stop()
+	}
+	code := uint8(vf.Choose(6)) // the five defined codes and one undefined
+	_ = h.Handle(vfW, f, &PingHeader{PingCode: code}, f.MessageData())
+	vf.Assert(inst.st.VfPeerSession(other).VfEnc() == encOther, "error-ping-changed-session-of-other-router")
+	if inst.st.VfPeerSession(src).VfEnc() == nil {
+		vf.Assert(code == 2, "session-cleared-by-other-error-code")
+		vf.Reach("session-cleared")
+	}
+	st1 := connStatus(ce.status.Load())
+	if st1 != st0 {
+		vf.Assert(st1 != connStatusAllowed && st1 != connStatusUnknown, "error-ping-made-connection-allowed")
+		vf.Reach("connection-marked")
 	}
 	vf.Reach("done")
 }
